@@ -318,15 +318,25 @@ impl<T> RawTable<T> {
         if bucket.in_main {
             self.table.replace_bucket_with(bucket.bucket, f)
         } else if let Some(ref mut lo) = self.leftovers {
-            let items = &mut lo.items;
-            let b = bucket.bucket.clone();
-            lo.table.replace_bucket_with(b, move |t| {
-                let v = f(t);
-                if v.is_none() {
-                    items.reflect_remove(&bucket.bucket);
+            // The element is taken out of its bucket before `f` runs, so the cached iterator has to
+            // hear about the removal first (and `f` may panic). If `f` puts an element back, the
+            // table is as it was, and so the iterator as it was is valid again.
+            struct AfterRemove<'a, T>(&'a mut OldTable<T>);
+            impl<T> Drop for AfterRemove<'_, T> {
+                fn drop(&mut self) {
+                    // SAFETY: `before_remove` was called for the one removal made since.
+                    unsafe { self.0.after_remove() }
                 }
-                v
-            })
+            }
+
+            let items = lo.items.clone();
+            lo.before_remove(&bucket.bucket);
+            let lo = AfterRemove(lo);
+            let occupied = lo.0.table.replace_bucket_with(bucket.bucket, f);
+            if occupied {
+                lo.0.items = items;
+            }
+            occupied
         } else {
             unreachable!("invalid bucket state");
         }
